@@ -774,7 +774,32 @@ def m5(ck: Check) -> None:
         uses = [n for n in own_walk(fm.f.node) if isinstance(n, ast.Subscript) and isinstance(n.value, ast.Name) and n.value.id in tables
                 and isinstance(n.ctx, ast.Load)]
         if not tables or not uses:
-            raise AnalysisError("anchor vanished: summary() labels")
+            # ... or in the two arms of a conditional expression `A if self.node_is_minimal(node) else B`
+            def has(e, word):
+                return any(isinstance(y, ast.Constant) and isinstance(y.value, str) and word in y.value.lower() for y in ast.walk(e))
+            conds = [n for n in own_walk(fm.f.node) if isinstance(n, ast.IfExp)
+                     and ((has(n.body, "minimal trap") and has(n.orelse, "motif avoid")) or (has(n.body, "motif avoid") and has(n.orelse, "minimal trap")))]
+            if not conds:
+                raise AnalysisError("anchor vanished: summary() labels")
+            for n in conds:
+                cn_ = fm.cfgn(n)
+                lps = [l for l in fm.cfg.enclosing_loops(cn_) if isinstance(l, ast.For)]
+                var = text(lps[0].target) if lps else "?"
+                t, pol = n.test, True
+                while isinstance(t, ast.UnaryOp) and isinstance(t.op, ast.Not):
+                    t, pol = t.operand, not pol
+                if isinstance(t, ast.Name):
+                    t = fm.deref(t, cn_)
+                    while isinstance(t, ast.UnaryOp) and isinstance(t.op, ast.Not):
+                        t, pol = t.operand, not pol
+                if not (isinstance(t, ast.Call) and callee_name(t) == "node_is_minimal" and text(t.func.value) == "self" and t.args
+                        and text(t.args[0]) == var):
+                    probs.append("the label is not chosen by node_is_minimal of the listed node")
+                elif has(n.body if pol else n.orelse, "motif avoid") or has(n.orelse if pol else n.body, "minimal trap"):
+                    probs.append("labels are attached to the wrong value of node_is_minimal")
+            ck.ob("M5", fm, conds[0], not probs, "; ".join(sorted(set(probs))) if probs else "labels follow node_is_minimal of the listed node",
+                  key="summary labels")
+            return
         for u in uses:
             tb = tables[u.value.id]
             if not ("minimal trap" in tb[True] and "motif avoid" in tb[False]):
